@@ -975,6 +975,9 @@ func _expandFont(_ string, _ pr.Shortand, tokens []Token) ([]namedTokens, error)
 	// can come in any order and are all optional.
 	hasBroken := false
 	for i := 0; i < 4; i++ {
+		if len(tokens) == 0 { // only "normal" keywords so far: font-size is missing
+			return nil, ErrInvalidValue
+		}
 		token, tokens = tokens[len(tokens)-1], tokens[:len(tokens)-1]
 
 		kw := getKeyword(token)
@@ -1005,6 +1008,9 @@ func _expandFont(_ string, _ pr.Shortand, tokens []Token) ([]namedTokens, error)
 		}
 	}
 	if !hasBroken {
+		if len(tokens) == 0 {
+			return nil, ErrInvalidValue
+		}
 		token, tokens = tokens[len(tokens)-1], tokens[:len(tokens)-1]
 	}
 
@@ -1028,6 +1034,9 @@ func _expandFont(_ string, _ pr.Shortand, tokens []Token) ([]namedTokens, error)
 	token = tokens[len(tokens)-1]
 	tokens = tokens[:len(tokens)-1]
 	if lit, ok := token.(pa.Literal); ok && lit.Value == "/" {
+		if len(tokens) == 0 { // nothing after the "/"
+			return nil, ErrInvalidValue
+		}
 		token = tokens[len(tokens)-1]
 		tokens = tokens[:len(tokens)-1]
 		if lineHeight([]Token{token}, "") == nil {
